@@ -82,6 +82,9 @@ def _worker(args):
     loader.install()
     from . import sched, expr as X
     mod = _load_check(pid)
+    if getattr(mod, 'USES_STRINGS', False):
+        from . import symstr
+        symstr.install()
     groups = mod.groups(tier)
     g = groups[gi]
     name = g['name']
@@ -384,6 +387,9 @@ def main(argv=None):
     from . import loader
     loader.install()
     mod = _load_check(pid)
+    if getattr(mod, 'USES_STRINGS', False):
+        from . import symstr
+        symstr.install()
     groups = mod.groups(tier)
     idx = [i for i, g in enumerate(groups) if a.only is None or fnmatch.fnmatchcase(g['name'], a.only)]
     names = [groups[i]['name'] for i in idx]
